@@ -7,13 +7,16 @@ package jsonschema
 //
 // C10 - numbers decoded by the JSON Schema library arrive as json.Number (a string type); before a
 // default, constant or enum value enters the IR it has to be unwrapped to the Go number it denotes,
-// otherwise the language back ends render it as a quoted string.
+// otherwise the language back ends render it as a quoted string. The number it denotes is the one
+// encoding/json gives: Int64() when that succeeds (exact for every integer literal), else Float64().
 //@ func unwrapJSONNumber
 //@   property C10
 //@   modifies nothing
 //@   ensures  unwrapped: !hastype(result, "encoding/json.Number")
 //@   ensures  numbers: hastype(input, "encoding/json.Number") ==> hastype(result, "int64") || hastype(result, "float64") || hastype(result, "string")
 //@   ensures  others: !hastype(input, "encoding/json.Number") ==> result == input
+//@   ensures  integer: hastype(input, "encoding/json.Number") && extern("encoding/json.Number.Int64", 1, "error", unbox(input, "encoding/json.Number")) == nil ==> result == box(extern("encoding/json.Number.Int64", 0, "int64", unbox(input, "encoding/json.Number")), "int64")
+//@   ensures  float: hastype(input, "encoding/json.Number") && extern("encoding/json.Number.Int64", 1, "error", unbox(input, "encoding/json.Number")) != nil && extern("encoding/json.Number.Float64", 1, "error", unbox(input, "encoding/json.Number")) == nil ==> result == box(extern("encoding/json.Number.Float64", 0, "float64", unbox(input, "encoding/json.Number")), "float64")
 //
 // unwrapJSONNumbers: the recursive variant for list and object defaults. At the top level it never
 // returns a json.Number either; values that are neither lists, objects nor numbers are returned as is.
